@@ -521,6 +521,44 @@ Proof.
   destruct (req_flag (o_essential o)), (present_not_null claims k), (forallb _ opts); reflexivity.
 Qed.
 
+(* precedence: the first claim, in claims order, that violates a clause decides *)
+Lemma run_claims_first_error now lw opts l e :
+  wf_opts opts = true -> json_claims l = true ->
+  run_claims now lw opts l = Err e ->
+  exists l1 k v l2, l = l1 ++ (k, v) :: l2 /\
+    on_claims (claim_satisfied now lw opts) l1 = true /\
+    claim_err_matches now lw opts k v e.
+Proof.
+  intros W. induction l as [|[k v] l IH]; simpl; intro J; [discriminate|].
+  apply andb_true_iff in J. destruct J as [Jv Jl]. simpl in Jv.
+  pose proof (check_claim_class now lw opts k v W Jv) as H.
+  destruct (check_claim now lw opts k v) as [[]|e0] eqn:E; simpl.
+  - intro R. destruct (IH Jl R) as [l1 [k1 [v1 [l2 [L [P M]]]]]].
+    exists ((k, v) :: l1), k1, v1, l2. split; [rewrite L; reflexivity|]. split; [|exact M].
+    simpl. unfold claim_class, claim_ok in H. unfold claim_satisfied at 1. rewrite H. exact P.
+  - intro R. inversion R; subst e0.
+    exists [], k, v, l. split; [reflexivity|]. split; [reflexivity|].
+    unfold claim_class in H. unfold claim_err_matches.
+    destruct e as [c| | | | | | | | | |]; try contradiction. destruct c; try contradiction; exact H.
+Qed.
+
+Lemma validate_first_error now lw opts claims e :
+  wf_opts opts = true -> json_claims claims = true ->
+  validate now lw opts claims = Err e -> e <> EJose MissingClaimError ->
+  cl_essential opts claims = true /\
+  exists l1 k v l2, claims = l1 ++ (k, v) :: l2 /\
+    on_claims (claim_satisfied now lw opts) l1 = true /\
+    claim_err_matches now lw opts k v e.
+Proof.
+  intros W J. unfold validate. rewrite (missing_essential _ _ W).
+  destruct (cl_essential opts claims); simpl.
+  - intros R _. split; [reflexivity|]. apply run_claims_first_error; assumption.
+  - intros R N. inversion R. congruence.
+Qed.
+
+Lemma validate_default_eq now opts claims : validate_default now opts claims = validate now 0 opts claims.
+Proof. reflexivity. Qed.
+
 Lemma accepts_claim_ok strict sb now lw opts claims :
   accepts_full strict sb now lw opts claims =
   cl_essential opts claims &&
